@@ -49,6 +49,7 @@ struct Op {
     int drawKind = 0;    // 0 uniform, 1 r=0, 2 r=max, 3 just below threshold, 4 just above threshold
     uint64_t r64 = 0, r64b = 0;
     int bitvar = -1;     // MEAS_EXPR: index of the bit variable it defines
+    int loop = 0;        // GATE: 0 = a plain statement; n >= 2 = the gate sits in a for loop that runs n times
 };
 
 inline const std::vector<const char*>& angleTable() {
@@ -183,7 +184,10 @@ inline Rendered render(const Plan& p, bool trackedFields = false) {
             case DECLARR: add(std::string(o.tracked ? "@tracked " : "") + "qubit[" + std::to_string(o.size) + "] r" + std::to_string(declCounter++) + ";", oi, true); break;
             case NEWOBJ1: add(std::string("Q1 o") + std::to_string(declCounter) + (o.path % 4 == 1 ? " = new Q1D();" : o.path % 4 == 3 ? " = new Q1X();" : " = new Q1();"), oi, true); ++declCounter; break;
             case NEWOBJ2: add("Q2 p" + std::to_string(declCounter) + " = new Q2();", oi, true); ++declCounter; break;
-            case GATE: add(gateCall(o, decls), oi, true); break;
+            case GATE:
+                if (o.loop >= 2) add("for (int lp" + std::to_string(oi) + " = 0; lp" + std::to_string(oi) + " < " + std::to_string(o.loop) + "; lp" + std::to_string(oi) + " = lp" + std::to_string(oi) + " + 1) { " + gateCall(o, decls) + " }", oi, true);
+                else add(gateCall(o, decls), oi, true);
+                break;
             case IFGATE: add("if (b" + std::to_string(o.cond) + ") { " + gateCall(o, decls) + " }", oi, true); break;
             case CX: {
                 std::string a = handleExpr(o.h), b = handleExpr(o.h2);
@@ -258,7 +262,7 @@ inline Json toJson(const Plan& p) {
     for (auto& o : p.ops) {
         Json j = Json::object();
         j.set("op", kindName(o.kind)).set("kind", o.kind).set("h", handleJson(o.h)).set("h2", handleJson(o.h2)).set("gate", o.gate).set("angle", o.angle).set("neg", o.angleNeg).set("path", o.path).set("cond", o.cond)
-            .set("tracked", o.tracked).set("size", o.size).set("destroy", o.viaDestroy).set("draw", o.drawKind).set("r64", sim::hex64(o.r64)).set("r64b", sim::hex64(o.r64b)).set("bitvar", o.bitvar);
+            .set("tracked", o.tracked).set("size", o.size).set("destroy", o.viaDestroy).set("draw", o.drawKind).set("r64", sim::hex64(o.r64)).set("r64b", sim::hex64(o.r64b)).set("bitvar", o.bitvar).set("loop", o.loop);
         a.push(j);
     }
     return Json::object().set("ops", a).set("shots", p.shots).set("static_qubit", p.staticQubit);
@@ -284,6 +288,7 @@ inline Plan fromJson(const Json& j) {
         o.r64 = strtoull(e.at("r64").asStr().c_str(), nullptr, 16);
         o.r64b = strtoull(e.at("r64b").asStr().c_str(), nullptr, 16);
         o.bitvar = (int)e.at("bitvar").asInt(-1);
+        o.loop = e.has("loop") ? (int)e.at("loop").asInt(0) : 0;
         p.ops.push_back(o);
     }
     return p;
@@ -508,6 +513,7 @@ inline Plan generate(sim::Rng& g, const GenOptions& go) {
             o.angle = (int)g.below(20);
             o.angleNeg = g.chance(0.3);
             if (bitvars > 0 && g.chance(0.15)) { o.kind = IFGATE; o.cond = (int)g.below((uint64_t)bitvars); }
+            else if (g.chance(0.08)) o.loop = 2 + (int)g.below(2);
             p.ops.push_back(o);
         } else if (u < 0.78 && active.size() >= 2) {
             o.kind = CX;
@@ -797,9 +803,11 @@ struct Interp {
                 int q = resolve(o.h);
                 if (guard(q)) break;
                 double t = angleValue(o);
-                sv.gate(o.gate, q, t);
-                if (o.gate < 4) qasm.push_back(std::string(gateName(o.gate)) + " q[" + std::to_string(q) + "];");
-                else qasm.push_back(std::string(gateName(o.gate)) + "(" + fmtAngle(t) + ") q[" + std::to_string(q) + "];");
+                for (int it = 0; it < (o.kind == GATE && o.loop >= 2 ? o.loop : 1); ++it) {
+                    sv.gate(o.gate, q, t);
+                    if (o.gate < 4) qasm.push_back(std::string(gateName(o.gate)) + " q[" + std::to_string(q) + "];");
+                    else qasm.push_back(std::string(gateName(o.gate)) + "(" + fmtAngle(t) + ") q[" + std::to_string(q) + "];");
+                }
                 break;
             }
             case CX: {
